@@ -153,7 +153,7 @@ func c11CheckBatch(run *vlib.Run, cases []schemaCase) (map[int][]vlib.Violation,
 				continue
 			}
 			goReqs = append(goReqs, e2.Request{ID: len(goReqs), Key: key, Op: "roundtrip", Doc: d.JSON})
-			pyReqs = append(pyReqs, e2.PyRequest{ID: len(pyReqs), Op: "roundtrip", Module: module, Encoder: p.ids[i] + ".cog.encoder", Class: d.Def, Doc: d.JSON})
+			pyReqs = append(pyReqs, e2.PyRequest{ID: len(pyReqs), Op: "roundtrip", Module: p.ids[i] + ".models." + pyModuleName(c.pkgOf(d.Def)), Encoder: p.ids[i] + ".cog.encoder", Class: d.Def, Doc: d.JSON})
 			refs = append(refs, ref{i, j})
 		}
 	}
